@@ -406,6 +406,12 @@ def step (w : World) (line : String) : World × String :=
       | none => (w, "no-store")
     | _, _, _, _, _, _ => (w, "bad-op")
   -- snapshots and the join specification of a session
+  -- specification of C03: an entry that was accepted must be valid
+  | ["simplies", accepted, ns, now, tok] =>
+    match parseBool? accepted, Bytes.ofHex ns, parseNat? now, parseEntry? tok with
+    | some accepted, some ns, some now, some e =>
+      (w, if !accepted || decide (Replica.Valid now ns e) then "ok" else "violation:accepted-an-invalid-entry")
+    | _, _, _, _ => (w, "bad-op")
   -- a specification that is a constant (e.g. `mirror=1`)
   | ["sconst", text] => (w, text)
   | ["snap", name, sid, ns] =>
